@@ -453,6 +453,14 @@ func ctxScenarios(seed int64) []Scenario {
 				s = base
 				s.Cancel = CancelPlan{Kind: "deadline", DeadlineMs: 1 + rep}
 				out = append(out, s)
+				// a lane made on a context that has already ended (cancelled; past its deadline): the
+				// same duties - pushes get the context's error, Wait returns, nothing is left behind
+				s = base
+				s.Cancel = CancelPlan{Kind: "none"}
+				s.Rush, s.Born = true, true
+				out = append(out, s)
+				s.Cancel = CancelPlan{Kind: "deadline", DeadlineMs: 1}
+				out = append(out, s)
 				// loaded: all workers pinned, external cancel
 				s = base
 				s.Pins = seq(ls)
